@@ -50,6 +50,18 @@ class C06(Prop):
                 p = rng.sample(range(n), n)
                 for r in range(n): X[r][p[r]] += w
             yield dict(entry="birkhoff_von_neumann", family=kind, X=[[float(x) for x in row] for row in X], itype=(kind == "scaled" and i % 4 == 0))
+        for c in self.regular01(rng, tier):
+            yield c
+
+    def regular01(self, rng, tier):
+        # 0/1 matrices with exactly k ones in every row and column (k disjoint permutations of weight 1): common row sum k
+        for i in range(24 if tier == "quick" else 400):
+            n = rng.randint(3, 6); k = rng.randint(2, n - 1)
+            base = rng.sample(range(n), n); shifts = rng.sample(range(n), k)
+            X = [[0.0] * n for _ in range(n)]
+            for sft in shifts:                      # permutation r -> base[(r + sft) mod n]: pairwise disjoint supports
+                for r in range(n): X[r][base[(r + sft) % n]] += 1.0
+            yield dict(entry="birkhoff_von_neumann", family="regular01", X=X, itype=bool(i % 3 == 0))
 
     def matrix(self, case):
         if "prof" in case:
